@@ -300,7 +300,12 @@ def _check_to(cell, ctx, fail, v, idx, subs, rows, exact, be, mp_, mom, tol, sa,
         k = min(d, td)
         cg = R.to_cartesian(sysr, got)
         if subs[i]["a"]["stratum"] in ("moderate",) or mp_:
-            if not opcheck.vec_close(cg[:k], exact[i][:k], tol, R.scale_of(exact[i]), k):
+            same = opcheck.vec_close(cg[:k], exact[i][:k], tol, R.scale_of(exact[i]), k)
+            if not same and td <= d:
+                # t recovered from tau next to t = 0 (or z from an angle next to the axis) is ill-conditioned: the result
+                # also denotes the source when its own stored coordinates are the converted source coordinates
+                same = opcheck.vec_equiv(sysr, got, exact[i][:k], tol, R.scale_of(exact[i]))
+            if not same:
                 fail("value", f"result {sysr}{opcheck.fmt(got)} = {opcheck.fmt(cg[:k])} does not denote the source vector "
                      f"{opcheck.fmt(exact[i][:k])} (stored {opcheck.fmt(src)})")
                 return
@@ -321,7 +326,8 @@ def _check_to(cell, ctx, fail, v, idx, subs, rows, exact, be, mp_, mom, tol, sa,
             return
         for j, i in enumerate(idx):
             cb = R.to_cartesian(sysb, brows[j])
-            if not opcheck.vec_close(cb, exact[i], tol * 4, R.scale_of(exact[i])):
+            if not opcheck.vec_close(cb, exact[i], tol * 4, R.scale_of(exact[i])) and \
+                    not opcheck.vec_equiv(sysb, brows[j], exact[i], tol * 4, R.scale_of(exact[i])):
                 fail("roundtrip", f"{variant} -> {cell['target']} -> back gives {opcheck.fmt(cb)} != {opcheck.fmt(exact[i])}")
                 return
     if target != sa:
